@@ -208,6 +208,22 @@ Theorem C16_gate_before_domovoi : forall loaded ps c m,
 Proof. exact gate_before_domovoi. Qed.
 Print Assumptions C16_gate_before_domovoi.
 
+(* ---- method overloads: the gate decides on the very overload that is executed ---- *)
+Theorem C16_gate_uses_executed_overload : forall abi name n perms c f md,
+  find_method abi name n = Some md ->
+  overload_call abi name n perms c f =
+    Some (call_permitted (md_safe md) true perms c name, N.land 15 (if md_safe md then N.ldiff f 10 else f)) /\
+  (md_safe md = false -> (fst (call_permitted (md_safe md) true perms c name, 0) = true <-> may_call perms c name)) /\
+  (md_safe md = true -> N.land (N.land 15 (N.ldiff f 10)) 10 = 0).
+Proof. exact gate_uses_executed_overload. Qed.
+Print Assumptions C16_gate_uses_executed_overload.
+
+(* resolving the Safe bit by name only (first ABI entry) is refuted on an ABI with a safe and a non-safe overload *)
+Definition C16_by_name_lookup_statement : Prop := by_name_lookup_statement.
+Theorem C16_by_name_lookup_refuted : ~ C16_by_name_lookup_statement.
+Proof. exact by_name_lookup_refuted. Qed.
+Print Assumptions C16_by_name_lookup_refuted.
+
 (* F6: the mechanism before the repair (group case returns at once) does not meet the specification *)
 Definition C16_can_call_unfixed_statement : Prop := can_call_unfixed_statement.
 Theorem C16_can_call_unfixed_refuted : ~ C16_can_call_unfixed_statement.
